@@ -42,9 +42,10 @@ def gen_struct(st, rng, skip=()):
 def gen_designator(rng, kind, maxlen=255):
     """returns (designator_type, value dict in library vocabulary)"""
     if kind == "vendor":
-        return 0, {"vendor_specific": gen.byte_string(rng, rng.choice([1, 4, 8, 20, 127, 128, 255] if maxlen >= 255 else [1, 4, 8, 20]) if maxlen >= 20 else 4)}
+        # every length a short (CSCD descriptor) designator may have, or the byte-boundary lengths of a long one
+        return 0, {"vendor_specific": gen.byte_string(rng, rng.choice([1, 4, 8, 20, 127, 128, 255]) if maxlen >= 255 else rng.randint(1, min(maxlen, 20)))}
     if kind == "t10":
-        n = rng.choice([0, 1, 8, 12]) if maxlen >= 20 else 4
+        n = rng.choice([0, 1, 8, 12, 24, 100]) if maxlen >= 255 else rng.randint(0, max(0, min(maxlen, 20) - 8))
         return 1, {"t10_vendor_id": gen.byte_string(rng, 8, "text"), "vendor_specific_id": gen.byte_string(rng, n)}
     if kind == "eui8":
         return 2, {"ieee_company_id": gen.rand_value(rng, 24), "vendor_specific_extension_id": gen.byte_string(rng, 5)}
@@ -68,7 +69,7 @@ def gen_designator(rng, kind, maxlen=255):
     if kind == "md5":
         return 7, {"md5_logical_identifier": gen.byte_string(rng, 16)}
     if kind == "name":
-        n = rng.choice([4, 8, 16, 20]) if maxlen >= 20 else 4
+        n = rng.choice([4, 8, 16, 20, 64, 252]) if maxlen >= 255 else rng.choice([k for k in (4, 8, 12, 16, 20) if k <= maxlen])
         s = gen.byte_string(rng, n - 1, "text") + b"\0"
         return 8, {"scsi_name_string": s}
     if kind == "pcie":
